@@ -605,7 +605,7 @@ namespace raptor
         }
         void init_int_comm(const int* values, const int block_size = 1)
         {
-            initialize(values);
+            initialize(values, block_size);
         }
         std::vector<double>& complete_double_comm(const int block_size = 1)
         {
